@@ -242,12 +242,18 @@ def run_case(case):
     clock, variant, prior, warm = case
     from pydsol.core.experiment import SingleReplication
     from pydsol.core.utils import DSOLError
+    # "float@100": the replication starts at 100 instead of 0
+    off = 0.0
+    if "@" in clock:
+        clock, off = clock.split("@")
+        off = float(off)
     simc, T = clock_types()[clock]
     QModel, Rec = model_class()
     END = 6.0
+    START = T(off)
 
     def rep(end=END):
-        return SingleReplication("r", T(0), T(warm), T(end))
+        return SingleReplication("r", START, T(warm), T(end))
 
     # a prior history may be a chain of histories, each with its own
     # initialize
@@ -285,10 +291,10 @@ def run_case(case):
                                 sim.start()
                                 wait_idle(sim, s)
                             elif k == "upto":
-                                sim.run_up_to(T(prior[1]))
+                                sim.run_up_to(START + T(prior[1]))
                                 wait_idle(sim, s)
                             elif k == "uptoi":
-                                sim.run_up_to_including(T(prior[1]))
+                                sim.run_up_to_including(START + T(prior[1]))
                                 wait_idle(sim, s)
                             elif k in ("ended", "ended-short", "ended-long"):
                                 sim.start()
@@ -371,6 +377,15 @@ def run_case(case):
             bad.append((key, trim(sub.get(key)), trim(ref.get(key))))
     if ref.get("warmups") != 1:
         bad.append(("reference-warmups", ref.get("warmups"), 1))
+    # absolute: every replication begins at its own start time
+    for lab, dd in (("reference", ref), ("subject", sub)):
+        if dd.get("init") == "ok" and \
+                dd.get("clock_after_init") != float(START):
+            bad.append(("clock-after-initialize-is-not-the-replication-start:"
+                        + lab, dd.get("clock_after_init"), float(START)))
+        if dd.get("log") and dd["log"][0][1] != float(START):
+            bad.append(("first-event-not-at-the-replication-start:" + lab,
+                        dd["log"][0], float(START)))
     for n in sub.get("notes", []):
         if n[0] == "init-from-handler" and n[1] != "DSOLError":
             bad.append(("initialize-while-running-not-refused", n, None))
@@ -419,6 +434,9 @@ def run(ctx):
     warms = (1.0, 0.0) if quick else (1.0, 0.0, 2.5)
     cases = [(c, v, p, w) for c in clocks for v in variants for p in PRIORS
              for w in warms]
+    # replications that do not start at zero
+    cases += [(c, 0, p, 1.0) for c in ("float@100", "int@1000", "duration@50")
+              for p in PRIORS]
     # chains of two prior histories (each with its own initialize): all
     # ordered pairs in the thorough tier, every history followed / preceded
     # by a completed replication in the quick tier
